@@ -238,6 +238,549 @@ theorem C18_header (T : LiftTables) (m : Module Inst) (lm : LModule) (h : conver
                 · cases h
                 · cases h; rfl
 
+/-! ### counts: one type / constant per declaration, one function per function, one block per block -/
+
+/-- an instruction of `types_global_values` that declares a type: an opcode `lift_type` has an arm for, with a result id -/
+def isTypeDecl (T : LiftTables) (i : Inst) : Bool := (T.type_.find? (fun a => a.opcode == i.opcode)).isSome && i.rid.isSome
+
+def isConstOpcode (T : LiftTables) (op : Nat) : Bool :=
+  op == T.opConstantTrue || op == T.opConstantFalse || op == T.opConstant || op == T.opConstantComposite ||
+  op == T.opConstantSampler || op == T.opConstantNull || op == T.opConstantCompositeContinuedINTEL ||
+  op == T.opSpecConstantCompositeContinuedINTEL
+
+/-- … that declares a constant `lift_constant` handles: not a type opcode, one of its opcodes, with a result id -/
+def isConstDecl (T : LiftTables) (i : Inst) : Bool :=
+  !(T.type_.find? (fun a => a.opcode == i.opcode)).isSome && isConstOpcode T i.opcode && i.rid.isSome
+
+theorem liftWith_wrongOpcode (T : LiftTables) (c : LCtx) (arms : List LArm) (i : Inst) :
+    Model.liftWith T c arms i = .err .wrongOpcode ↔ (arms.find? (fun a => a.opcode == i.opcode)).isSome = false := by
+  unfold Model.liftWith
+  cases arms.find? (fun a => a.opcode == i.opcode) with
+  | none => simp
+  | some a =>
+    dsimp only
+    cases liftFields T c a.fields i.operands <;> simp
+
+theorem liftWith_ok_arm (T : LiftTables) (c : LCtx) (arms : List LArm) (i : Inst) (n : LNode)
+    (h : Model.liftWith T c arms i = .ok n) : (arms.find? (fun a => a.opcode == i.opcode)).isSome = true := by
+  unfold Model.liftWith at h
+  cases hf : arms.find? (fun a => a.opcode == i.opcode) with
+  | none => rw [hf] at h; cases h
+  | some a => rfl
+
+theorem liftConstant_wrongOpcode (T : LiftTables) (c : LCtx) (i : Inst) :
+    liftConstant T c i = .err .wrongOpcode → isConstOpcode T i.opcode = false := by
+  intro h
+  unfold liftConstant at h
+  unfold isConstOpcode
+  dsimp only at h
+  by_cases h1 : (i.opcode == T.opConstantTrue) = true
+  · simp only [h1, if_true] at h; cases h
+  · simp only [h1, Bool.false_eq_true, if_false] at h
+    by_cases h2 : (i.opcode == T.opConstantFalse) = true
+    · simp only [h2, if_true] at h; cases h
+    · simp only [h2, Bool.false_eq_true, if_false] at h
+      by_cases h3 : (i.opcode == T.opConstant) = true
+      · simp only [h3, if_true] at h
+        exfalso
+        repeat' split at h
+        all_goals first | cases h | skip
+      · simp only [h3, Bool.false_eq_true, if_false] at h
+        by_cases h4 : (i.opcode == T.opConstantComposite) = true
+        · simp only [h4, if_true] at h
+          exfalso
+          -- the composite branch fails only with an operand error or a panic
+          have key : ∀ (l : List Operand), liftConstant.go T c l ≠ .err .wrongOpcode := by
+            intro l
+            induction l with
+            | nil => simp [liftConstant.go]
+            | cons o rest ih =>
+              unfold liftConstant.go
+              cases o with
+              | w v x =>
+                dsimp only
+                split
+                · simp
+                · split
+                  · simp
+                  · cases hg : liftConstant.go T c rest with
+                    | ok vs => simp
+                    | err e => simp; intro he; exact ih (by rw [hg, he])
+                    | panic s => simp
+              | q v => simp
+              | s b => simp
+          cases hg : liftConstant.go T c i.operands with
+          | ok vs => rw [hg] at h; cases h
+          | err e => rw [hg] at h; dsimp only at h; cases h; exact key _ hg
+          | panic s => rw [hg] at h; cases h
+        · simp only [h4, Bool.false_eq_true, if_false] at h
+          by_cases h5 : (i.opcode == T.opConstantSampler) = true
+          · simp only [h5, if_true] at h
+            exfalso
+            repeat' split at h
+            all_goals first | cases h | skip
+          · simp only [h5, Bool.false_eq_true, if_false] at h
+            by_cases h6 : (i.opcode == T.opConstantNull) = true
+            · simp only [h6, if_true] at h; cases h
+            · simp only [h6, Bool.false_eq_true, if_false] at h
+              by_cases h7 : (i.opcode == T.opConstantCompositeContinuedINTEL || i.opcode == T.opSpecConstantCompositeContinuedINTEL) = true
+              · simp only [h7, if_true] at h; cases h
+              · simp only [Bool.or_eq_true, not_or] at h7
+                simp [h1, h2, h3, h4, h5, h6, h7.1, h7.2]
+
+theorem liftConstant_ok_opcode (T : LiftTables) (c : LCtx) (i : Inst) (n : LNode) (h : liftConstant T c i = .ok n) :
+    isConstOpcode T i.opcode = true := by
+  unfold liftConstant at h
+  unfold isConstOpcode
+  dsimp only at h
+  by_cases h1 : (i.opcode == T.opConstantTrue) = true
+  · simp [h1]
+  · by_cases h2 : (i.opcode == T.opConstantFalse) = true
+    · simp [h2]
+    · by_cases h3 : (i.opcode == T.opConstant) = true
+      · simp [h3]
+      · by_cases h4 : (i.opcode == T.opConstantComposite) = true
+        · simp [h4]
+        · by_cases h5 : (i.opcode == T.opConstantSampler) = true
+          · simp [h5]
+          · by_cases h6 : (i.opcode == T.opConstantNull) = true
+            · simp [h6]
+            · by_cases h7 : (i.opcode == T.opConstantCompositeContinuedINTEL || i.opcode == T.opSpecConstantCompositeContinuedINTEL) = true
+              · simp only [Bool.or_eq_true] at h7
+                rcases h7 with h7 | h7 <;> simp [h7]
+              · simp only [h1, h2, h3, h4, h5, h6, h7, Bool.false_eq_true, if_false] at h
+                cases h
+
+/-- **C18 (types and constants).** After the first loop of `convert` the context holds, in declaration order, one more
+type per type declaration and one more constant per constant declaration of `types_global_values` — appended to what was
+there, never replaced. -/
+theorem liftGlobals_counts (T : LiftTables) : ∀ (insts : List Inst) (c c' : LCtx), liftGlobals T c insts = .ok c' →
+    c'.types.length = c.types.length + (insts.filter (isTypeDecl T)).length ∧
+    c'.consts.length = c.consts.length + (insts.filter (isConstDecl T)).length ∧
+    c'.types.take c.types.length = c.types ∧ c'.consts.take c.consts.length = c.consts ∧ c'.ops = c.ops
+  | [], c, c', h => by simp only [liftGlobals, LRes.ok.injEq] at h; subst h; simp
+  | i :: rest, c, c', h => by
+    unfold liftGlobals at h
+    cases hw : Model.liftWith T c T.type_ i with
+    | ok v =>
+      rw [hw] at h
+      dsimp only at h
+      have harm := liftWith_ok_arm T c T.type_ i v hw
+      cases hrid : i.rid with
+      | none =>
+        rw [hrid] at h
+        dsimp only at h
+        have ih := liftGlobals_counts T rest c c' h
+        have e1 : isTypeDecl T i = false := by simp [isTypeDecl, hrid]
+        have e2 : isConstDecl T i = false := by simp [isConstDecl, hrid]
+        simpa [List.filter_cons, e1, e2] using ih
+      | some id =>
+        rw [hrid] at h
+        dsimp only at h
+        split at h
+        · cases h
+        · obtain ⟨a1, a2, a3, a4, a5⟩ := liftGlobals_counts T rest _ c' h
+          have e1 : isTypeDecl T i = true := by simp [isTypeDecl, hrid, harm]
+          have e2 : isConstDecl T i = false := by simp [isConstDecl, harm]
+          have h3 : c'.types.take c.types.length = c.types := by
+            have := congrArg (List.take c.types.length) a3
+            dsimp only at this
+            rw [List.take_take, List.take_left' rfl] at this
+            have hm : min c.types.length (c.types ++ [v]).length = c.types.length := by simp
+            rwa [hm] at this
+          simp only [List.filter_cons, e1, e2, if_true, Bool.false_eq_true, if_false, List.length_cons, List.length_append,
+            List.length_nil] at a1 a2 ⊢
+          exact ⟨by omega, a2, h3, a4, a5⟩
+    | panic s => rw [hw] at h; cases h
+    | err e =>
+      rw [hw] at h
+      cases e with
+      | missingResult => cases h
+      | operand _ => cases h
+      | wrongOpcode =>
+        dsimp only at h
+        have hnoarm := (liftWith_wrongOpcode T c T.type_ i).1 hw
+        have e1 : isTypeDecl T i = false := by simp [isTypeDecl, hnoarm]
+        cases hc : liftConstant T c i with
+        | ok v =>
+          rw [hc] at h
+          dsimp only at h
+          have hop := liftConstant_ok_opcode T c i v hc
+          cases hrid : i.rid with
+          | none =>
+            rw [hrid] at h
+            dsimp only at h
+            have ih := liftGlobals_counts T rest c c' h
+            have e2 : isConstDecl T i = false := by simp [isConstDecl, hrid]
+            simpa [List.filter_cons, e1, e2] using ih
+          | some id =>
+            rw [hrid] at h
+            dsimp only at h
+            split at h
+            · cases h
+            · obtain ⟨a1, a2, a3, a4, a5⟩ := liftGlobals_counts T rest _ c' h
+              have e2 : isConstDecl T i = true := by simp [isConstDecl, hrid, hnoarm, hop]
+              have h4 : c'.consts.take c.consts.length = c.consts := by
+                have := congrArg (List.take c.consts.length) a4
+                dsimp only at this
+                rw [List.take_take, List.take_left' rfl] at this
+                have hm : min c.consts.length (c.consts ++ [v]).length = c.consts.length := by simp
+                rwa [hm] at this
+              simp only [List.filter_cons, e1, e2, if_true, Bool.false_eq_true, if_false, List.length_cons,
+                List.length_append, List.length_nil] at a1 a2 ⊢
+              exact ⟨a1, by omega, a3, h4, a5⟩
+        | panic s => rw [hc] at h; cases h
+        | err e2 =>
+          rw [hc] at h
+          cases e2 with
+          | missingResult => cases h
+          | operand _ => cases h
+          | wrongOpcode =>
+            dsimp only at h
+            have ih := liftGlobals_counts T rest c c' h
+            have hnc := liftConstant_wrongOpcode T c i hc
+            have e2 : isConstDecl T i = false := by simp [isConstDecl, hnc]
+            simpa [List.filter_cons, e1, e2] using ih
+
+/-- a block instruction that becomes an operation: not `OpLine`, not `OpPhi`, with a result id -/
+def isOpInst (T : LiftTables) (i : Inst) : Bool := !(i.opcode == T.opLine) && !(i.opcode == T.opPhi) && i.rid.isSome
+
+def isPhi (T : LiftTables) (i : Inst) : Bool := !(i.opcode == T.opLine) && i.opcode == T.opPhi
+
+theorem liftBlockInsts_counts (T : LiftTables) : ∀ (insts : List Inst) (c : LCtx) (args : List LVal) (c' : LCtx)
+    (args' : List LVal), liftBlockInsts T c args insts = .ok (c', args') →
+    c'.types = c.types ∧ c'.typeIds = c.typeIds ∧ c'.consts = c.consts ∧ c'.blocks = c.blocks ∧ c'.blockIds = c.blockIds ∧
+    c'.ops.length = c.ops.length + (insts.filter (isOpInst T)).length ∧
+    args'.length = args.length + (insts.filter (isPhi T)).length
+  | [], c, args, c', args', h => by
+    simp only [liftBlockInsts, LRes.ok.injEq, Prod.mk.injEq] at h
+    obtain ⟨rfl, rfl⟩ := h
+    simp
+  | i :: rest, c, args, c', args', h => by
+    unfold liftBlockInsts at h
+    by_cases hline : (i.opcode == T.opLine) = true
+    · simp only [hline, if_true] at h
+      have ih := liftBlockInsts_counts T rest c args c' args' h
+      have e1 : isOpInst T i = false := by simp [isOpInst, hline]
+      have e2 : isPhi T i = false := by simp [isPhi, hline]
+      simpa [List.filter_cons, e1, e2] using ih
+    · simp only [hline, Bool.false_eq_true, if_false] at h
+      by_cases hphi : (i.opcode == T.opPhi) = true
+      · simp only [hphi, if_true] at h
+        have e1 : isOpInst T i = false := by simp [isOpInst, hphi]
+        have e2 : isPhi T i = true := by simp [isPhi, hline, hphi]
+        cases hrt : i.rtype with
+        | none => rw [hrt] at h; cases h
+        | some rt =>
+          rw [hrt] at h
+          dsimp only at h
+          cases hty : lookupId c.typeIds rt with
+          | none => rw [hty] at h; cases h
+          | some ty =>
+            rw [hty] at h
+            dsimp only at h
+            split at h
+            · have ih := liftBlockInsts_counts T rest c (args ++ [.tok ty]) c' args' h
+              simp only [List.filter_cons, e1, e2, if_true, Bool.false_eq_true, if_false, List.length_cons, List.length_append,
+                List.length_nil] at ih ⊢
+              obtain ⟨a1, a2, a3, a4, a5, a6, a7⟩ := ih
+              exact ⟨a1, a2, a3, a4, a5, a6, by omega⟩
+            · cases h
+            · cases h
+      · simp only [hphi, Bool.false_eq_true, if_false] at h
+        have e2 : isPhi T i = false := by simp [isPhi, hphi]
+        cases hrid : i.rid with
+        | none =>
+          rw [hrid] at h
+          dsimp only at h
+          have ih := liftBlockInsts_counts T rest c args c' args' h
+          have e1 : isOpInst T i = false := by simp [isOpInst, hrid]
+          simpa [List.filter_cons, e1, e2] using ih
+        | some id =>
+          rw [hrid] at h
+          dsimp only at h
+          have e1 : isOpInst T i = true := by simp [isOpInst, hline, hphi, hrid]
+          cases hw : Model.liftWith T c T.op i with
+          | err e => rw [hw] at h; cases h
+          | panic s => rw [hw] at h; cases h
+          | ok op =>
+            rw [hw] at h
+            dsimp only at h
+            split at h
+            · cases h
+            · cases hrt : i.rtype with
+              | none =>
+                rw [hrt] at h
+                dsimp only at h
+                have ih := liftBlockInsts_counts T rest _ args c' args' h
+                simp only [List.filter_cons, e1, e2, if_true, Bool.false_eq_true, if_false, List.length_cons,
+                  List.length_append, List.length_nil] at ih ⊢
+                obtain ⟨a1, a2, a3, a4, a5, a6, a7⟩ := ih
+                exact ⟨a1, a2, a3, a4, a5, by omega, a7⟩
+              | some rt =>
+                rw [hrt] at h
+                dsimp only at h
+                cases hty : lookupId c.typeIds rt with
+                | none => rw [hty] at h; cases h
+                | some ty =>
+                  rw [hty] at h
+                  dsimp only at h
+                  have ih := liftBlockInsts_counts T rest _ args c' args' h
+                  simp only [List.filter_cons, e1, e2, if_true, Bool.false_eq_true, if_false, List.length_cons,
+                    List.length_append, List.length_nil] at ih ⊢
+                  obtain ⟨a1, a2, a3, a4, a5, a6, a7⟩ := ih
+                  exact ⟨a1, a2, a3, a4, a5, by omega, a7⟩
+
+/-- the operations a list of blocks contributes -/
+def blockOps (T : LiftTables) (bs : List (Block Inst)) : Nat :=
+  (bs.map (fun b => (b.insts.filter (isOpInst T)).length)).sum
+
+theorem liftBlocks_counts (T : LiftTables) : ∀ (bs : List (Block Inst)) (c : LCtx) (acc : List LBlock) (c' : LCtx)
+    (acc' : List LBlock), liftBlocks T c acc bs = .ok (c', acc') →
+    c'.types = c.types ∧ c'.typeIds = c.typeIds ∧ c'.consts = c.consts ∧ acc'.length = acc.length + bs.length ∧
+    c'.ops.length = c.ops.length + blockOps T bs ∧
+    (∀ k, k < bs.length → ∃ b lb, bs[k]? = some b ∧ acc'[acc.length + k]? = some lb ∧
+      lb.args.length = (b.insts.filter (isPhi T)).length)
+  | [], c, acc, c', acc', h => by
+    simp only [liftBlocks, LRes.ok.injEq, Prod.mk.injEq] at h
+    obtain ⟨rfl, rfl⟩ := h
+    simp [blockOps]
+  | b :: rest, c, acc, c', acc', h => by
+    unfold liftBlocks at h
+    cases hi : liftBlockInsts T c [] b.insts with
+    | err e => rw [hi] at h; cases h
+    | panic s => rw [hi] at h; cases h
+    | ok p =>
+      obtain ⟨c1, args⟩ := p
+      rw [hi] at h
+      dsimp only at h
+      obtain ⟨t1, t2, t3, _, _, t6, t7⟩ := liftBlockInsts_counts T b.insts c [] c1 args hi
+      cases hlast : b.insts.getLast? with
+      | none => rw [hlast] at h; cases h
+      | some last =>
+        rw [hlast] at h
+        dsimp only at h
+        cases hterm : liftTerminator T c1 last with
+        | err e => rw [hterm] at h; cases h
+        | panic s => rw [hterm] at h; cases h
+        | ok term =>
+          rw [hterm] at h
+          dsimp only at h
+          cases hlab : b.label.bind (·.rid) with
+          | none => rw [hlab] at h; cases h
+          | some lid =>
+            rw [hlab] at h
+            dsimp only at h
+            split at h
+            · cases h
+            · obtain ⟨a1, a2, a3, a4, a5, a6⟩ := liftBlocks_counts T rest _ (acc ++ [⟨args, term⟩]) c' acc' h
+              simp only [List.length_append, List.length_cons, List.length_nil] at a4
+              refine ⟨by rw [a1, t1], by rw [a2, t2], by rw [a3, t3], by simp only [List.length_cons]; omega, ?_, ?_⟩
+              · simp only [blockOps, List.map_cons, List.sum_cons] at a5 ⊢
+                omega
+              · intro k hk
+                cases k with
+                | zero =>
+                  refine ⟨b, ⟨args, term⟩, rfl, ?_, by simpa using t7⟩
+                  -- the block lifted first sits right after the accumulated ones and is never touched again
+                  have hpre : ∀ (bs : List (Block Inst)) (c0 : LCtx) (ac : List LBlock) (c0' : LCtx) (ac' : List LBlock),
+                      liftBlocks T c0 ac bs = .ok (c0', ac') → ac'.take ac.length = ac := by
+                    intro bs
+                    induction bs with
+                    | nil =>
+                      intro c0 ac c0' ac' hh
+                      simp only [liftBlocks, LRes.ok.injEq, Prod.mk.injEq] at hh
+                      obtain ⟨_, rfl⟩ := hh
+                      simp
+                    | cons b2 bs2 ih2 =>
+                      intro c0 ac c0' ac' hh
+                      unfold liftBlocks at hh
+                      cases hi2 : liftBlockInsts T c0 [] b2.insts with
+                      | err e => rw [hi2] at hh; cases hh
+                      | panic s => rw [hi2] at hh; cases hh
+                      | ok p2 =>
+                        obtain ⟨cc, ar⟩ := p2
+                        rw [hi2] at hh
+                        dsimp only at hh
+                        cases hl2 : b2.insts.getLast? with
+                        | none => rw [hl2] at hh; cases hh
+                        | some la =>
+                          rw [hl2] at hh
+                          dsimp only at hh
+                          cases ht2 : liftTerminator T cc la with
+                          | err e => rw [ht2] at hh; cases hh
+                          | panic s => rw [ht2] at hh; cases hh
+                          | ok tm =>
+                            rw [ht2] at hh
+                            dsimp only at hh
+                            cases hb2 : b2.label.bind (·.rid) with
+                            | none => rw [hb2] at hh; cases hh
+                            | some li =>
+                              rw [hb2] at hh
+                              dsimp only at hh
+                              split at hh
+                              · cases hh
+                              · have := ih2 _ _ _ _ hh
+                                have h2 := congrArg (List.take ac.length) this
+                                rw [List.take_take, List.take_left' rfl] at h2
+                                have hm : min ac.length (ac ++ [(⟨ar, tm⟩ : LBlock)]).length = ac.length := by simp
+                                rwa [hm] at h2
+                  have hp := hpre rest _ (acc ++ [⟨args, term⟩]) c' acc' h
+                  have : acc'[acc.length]? = (acc ++ [⟨args, term⟩])[acc.length]? := by
+                    rw [← hp, List.getElem?_take]
+                    simp
+                  simpa using this
+                | succ k =>
+                  obtain ⟨b', lb, e1, e2, e3⟩ := a6 k (by simp only [List.length_cons] at hk; omega)
+                  refine ⟨b', lb, by simpa using e1, ?_, e3⟩
+                  simp only [List.length_append, List.length_cons, List.length_nil] at e2
+                  have : acc.length + (k + 1) = acc.length + 1 + k := by omega
+                  rw [this]; exact e2
+
+def functionOps (T : LiftTables) (fs : List (Function Inst)) : Nat := (fs.map (fun f => blockOps T f.blocks)).sum
+
+theorem liftFunctions_counts (T : LiftTables) : ∀ (fs : List (Function Inst)) (c : LCtx) (acc : List LFunction) (c' : LCtx)
+    (acc' : List LFunction), liftFunctions T c acc fs = .ok (c', acc') →
+    c'.types = c.types ∧ c'.consts = c.consts ∧ acc'.length = acc.length + fs.length ∧
+    c'.ops.length = c.ops.length + functionOps T fs ∧
+    (acc'.drop acc.length).map (fun lf => lf.blocks.length) = fs.map (fun f => f.blocks.length) ∧
+    acc'.take acc.length = acc
+  | [], c, acc, c', acc', h => by
+    simp only [liftFunctions, LRes.ok.injEq, Prod.mk.injEq] at h
+    obtain ⟨rfl, rfl⟩ := h
+    simp [functionOps]
+  | f :: rest, c, acc, c', acc', h => by
+    unfold liftFunctions at h
+    cases hd : f.def_ with
+    | none => rw [hd] at h; cases h
+    | some d =>
+      rw [hd] at h
+      dsimp only at h
+      cases harm : T.function with
+      | none => rw [harm] at h; cases h
+      | some arm =>
+        rw [harm] at h
+        dsimp only at h
+        cases hw : Model.liftWith T c [arm] d with
+        | err e => rw [hw] at h; cases h
+        | panic s => rw [hw] at h; cases h
+        | ok defn =>
+          rw [hw] at h
+          dsimp only at h
+          cases hb : liftBlocks T { c with blocks := [], blockIds := [] } [] f.blocks with
+          | err e => rw [hb] at h; cases h
+          | panic s => rw [hb] at h; cases h
+          | ok p =>
+            obtain ⟨c1, blocks⟩ := p
+            rw [hb] at h
+            dsimp only at h
+            obtain ⟨b1, b2, b3, b4, b5, _⟩ := liftBlocks_counts T f.blocks _ [] c1 blocks hb
+            dsimp only at b1 b2 b3 b5
+            simp only [List.length_nil, Nat.zero_add] at b4
+            cases hh : f.blocks.head? with
+            | none => rw [hh] at h; cases h
+            | some b0 =>
+              rw [hh] at h
+              dsimp only at h
+              cases hl0 : b0.label.bind (·.rid) with
+              | none => rw [hl0] at h; cases h
+              | some l0 =>
+                rw [hl0] at h
+                dsimp only at h
+                cases hst : lookupId c1.blockIds l0 with
+                | none => rw [hst] at h; cases h
+                | some start =>
+                  rw [hst] at h
+                  dsimp only at h
+                  cases hrt : d.rtype with
+                  | none => rw [hrt] at h; cases h
+                  | some rt =>
+                    rw [hrt] at h
+                    dsimp only at h
+                    cases hres : lookupId c1.typeIds rt with
+                    | none => rw [hres] at h; cases h
+                    | some res =>
+                      rw [hres] at h
+                      dsimp only at h
+                      obtain ⟨a1, a2, a3, a4, a5, a6⟩ := liftFunctions_counts T rest _ _ c' acc' h
+                      dsimp only at a1 a2 a4
+                      simp only [List.length_append, List.length_cons, List.length_nil] at a3 a5 a6
+                      refine ⟨by rw [a1, b1], by rw [a2, b3], by simp only [List.length_cons]; omega, ?_, ?_, ?_⟩
+                      · simp only [functionOps, List.map_cons, List.sum_cons] at a4 ⊢
+                        omega
+                      · -- the function lifted here is element `acc.length` of the result
+                        have hk : acc'.take (acc.length + 1) = acc ++ [⟨(nodeField defn T.nFunctionControl).getD .none, res, blocks, start⟩] := a6
+                        have hlen : acc.length < acc'.length := by omega
+                        have hget : acc'[acc.length]? = some ⟨(nodeField defn T.nFunctionControl).getD .none, res, blocks, start⟩ := by
+                          have := congrArg (fun l => l[acc.length]?) hk
+                          simp only [List.getElem?_take] at this
+                          simpa using this
+                        rw [List.drop_eq_getElem_cons hlen, List.map_cons, List.map_cons]
+                        have hg : acc'[acc.length] = ⟨(nodeField defn T.nFunctionControl).getD .none, res, blocks, start⟩ := by
+                          rw [List.getElem?_eq_getElem hlen] at hget
+                          exact Option.some.inj hget
+                        rw [hg]
+                        dsimp only
+                        rw [b4, a5]
+                      · have := congrArg (List.take acc.length) a6
+                        rw [List.take_take, List.take_left' rfl] at this
+                        have hm : min acc.length (acc.length + 1) = acc.length := by omega
+                        rwa [hm] at this
+
+/-- **C18 (structure).** A successful conversion has: one type per type declaration and one constant per constant
+declaration of `types_global_values`; one capability per `OpCapability`; one function per function, each with as many blocks
+as the function has; and as many operations as there are result-producing block instructions other than `OpPhi` and
+`OpLine`. -/
+theorem C18_structure (T : LiftTables) (m : Module Inst) (lm : LModule) (h : convert T m = .ok lm) :
+    lm.types.length = (m.typesGlobalValues.filter (isTypeDecl T)).length ∧
+    lm.consts.length = (m.typesGlobalValues.filter (isConstDecl T)).length ∧
+    lm.functions.length = m.functions.length ∧
+    lm.functions.map (fun lf => lf.blocks.length) = m.functions.map (fun f => f.blocks.length) ∧
+    lm.ops.length = functionOps T m.functions := by
+  unfold convert at h
+  cases hg : liftGlobals T LCtx.empty m.typesGlobalValues with
+  | err e => rw [hg] at h; cases h
+  | panic s => rw [hg] at h; cases h
+  | ok c0 =>
+    rw [hg] at h
+    dsimp only at h
+    obtain ⟨g1, g2, _, _, g5⟩ := liftGlobals_counts T _ _ _ hg
+    simp only [LCtx.empty, List.length_nil, Nat.zero_add] at g1 g2 g5
+    cases hf : liftFunctions T c0 [] m.functions with
+    | err e => rw [hf] at h; cases h
+    | panic s => rw [hf] at h; cases h
+    | ok p =>
+      obtain ⟨c, fns⟩ := p
+      rw [hf] at h
+      dsimp only at h
+      obtain ⟨f1, f2, f3, f4, f5, _⟩ := liftFunctions_counts T _ _ _ _ _ hf
+      simp only [List.length_nil, Nat.zero_add, List.drop_zero] at f3 f4 f5
+      cases hh : m.header with
+      | none => rw [hh] at h; cases h
+      | some hd =>
+        rw [hh] at h
+        dsimp only at h
+        cases hc : T.capability with
+        | none => rw [hc] at h; cases h
+        | some capArm =>
+          rw [hc] at h
+          dsimp only at h
+          split at h
+          · cases h
+          · cases h
+          · split at h
+            · cases h
+            · split at h
+              · cases h
+              · split at h
+                · cases h
+                · cases h
+                · cases h
+                  dsimp only
+                  rw [g5] at f4
+                  simp only [List.length_nil, Nat.zero_add] at f4
+                  exact ⟨by rw [f1]; exact g1, by rw [f2]; exact g2, f3, f5, f4⟩
+
 example : plainReq ⟨nameCode "operand_1", 0, [58], [0]⟩ = true := by decide
 
 end Rspirv.Props.C18
